@@ -241,9 +241,11 @@ Other == <<"o","t","h","e","r">>
 SudoOther == <<"s","_","o","t","h","e","r">>
 Al(name, kind, as) == Sh(name, kind, "ok") @@ [aliases |-> as]
 Rn(name, kind, w) == Sh(name, kind, "ok") @@ [wname |-> w]
+Rs(name, kind, w) == Sh(name, kind, "ok") @@ [wser |-> w]          \* written under w, read under the name derived from the method
 Alias1 ==
     [id |-> "AL1", family |-> "alias", overrides |-> {},
-     parts |-> << [id |-> "i1", methods |-> << Al(NameFoo, "exec", <<Zed>>), Rn(NameBar, "exec", Other), Sh(<<"y">>, "query", "ok") >>],
+     parts |-> << [id |-> "i1", methods |-> << Al(NameFoo, "exec", <<Zed>>), Rn(NameBar, "exec", Other), Sh(<<"y">>, "query", "ok"),
+                                               Rs(<<"a","_","b">>, "exec", <<"w","r","i","t","t","e","n">>) >>],
                   [id |-> "own", methods |-> << Sh(NameInstantiate, "instantiate", "ok"), Al(<<"x">>, "exec", <<OwnZed>>),
                                                 Rn(<<"z">>, "sudo", SudoOther), Sh(NameBar, "query", "ok") >>] >>]
 Alias2(rev) ==
